@@ -3,6 +3,7 @@
 From Coq Require Import List Bool.
 From KV.Wait Require Import Ir GenWait Model Explore Systems WaitLemmas Fixed.
 From KV.Wait Require Import ProofsRead ProofsWrite ProofsAccept ProofsMulti ProofsMulti3 ProofsFixed.
+From KV.Wait Require Import ProofsChange.
 Import ListNotations.
 
 Lemma from_bundle :
@@ -83,6 +84,44 @@ Proof.
     by (destruct c; [apply read_full_checked | apply write_full_checked | apply accept_full_checked]).
   unfold fixed_one_inv in K. split; bundle K.
 Qed.
+
+(* several callers, every deadline change class: the deadline-change broadcast *)
+Lemma change_tm_checked : forall c a, let d := sys_tm skel c a in scheck d (change_tm_inv d) = true.
+Proof. intros [] a; [apply read_change_tm_checked | apply write_change_tm_checked | apply accept_change_tm_checked]. Qed.
+Lemma change_2_checked : forall c a, let d := sys_change_n skel c 2 false a in scheck d (change_inv d) = true.
+Proof. intros [] a; [apply read_change_2_checked | apply write_change_2_checked | apply accept_change_2_checked]. Qed.
+
+Lemma change_inv_all :
+  forall d, scheck d (change_inv d) = true -> forall st, sreach d st ->
+    inv_ok st = true /\ inv_no_early_strong d st = true /\ inv_cleared d st = true /\
+    inv_deadline_seen d st = true /\ inv_expiry_wakes d st = true /\
+    inv_expiry_returns d st = true /\ inv_changed_moves d st = true.
+Proof.
+  intros d K st H. unfold change_inv in K. repeat split; bundle K.
+Qed.
+
+Lemma deadline_change_seen_multi :
+  forall c async st,
+    (let d := sys_tm skel c async in
+     sreach d st ->
+     inv_ok st = true /\ inv_no_early_strong d st = true /\ inv_cleared d st = true /\
+     inv_deadline_seen d st = true /\ inv_expiry_wakes d st = true /\
+     inv_expiry_returns d st = true /\ inv_changed_moves d st = true) /\
+    (let d := sys_change_n skel c 2 false async in
+     sreach d st ->
+     inv_ok st = true /\ inv_no_early_strong d st = true /\ inv_cleared d st = true /\
+     inv_deadline_seen d st = true /\ inv_expiry_wakes d st = true /\
+     inv_expiry_returns d st = true /\ inv_changed_moves d st = true).
+Proof.
+  intros c a st. split; intros d H; subst d.
+  - apply change_inv_all; [|exact H].
+    apply (scheck_weaken _ (change_tm_inv (sys_tm skel c a))); [|apply change_tm_checked].
+    apply inv_and_member. simpl; tauto.
+  - apply change_inv_all; [apply change_2_checked | exact H].
+Qed.
+
+Lemma setters_store_then_broadcast : setter_order_ok skel = true.
+Proof. exact setter_order_checked. Qed.
 
 (* ---- close / error broadcast ---- *)
 Lemma close_wakes_all :
